@@ -220,6 +220,35 @@ class Placement(Relation):
         if isq and common and len(want):
             ctx.check(isinstance(vals, u.Quantity) and vals.unit == data.unit,
                       'get_values quantity | unit lost')
+        # ---- the same RegionMask object answers the same later on: without
+        # the data mask, with another data mask, and with the first again
+        def gv_model(dm):
+            out = []
+            with np.errstate(all='ignore'):
+                for j in range(h):
+                    for i in range(w):
+                        p = (x0 + i, y0 + j)
+                        if p in common and model[p] > 0 and not (
+                                dm is not None and dm[p[1], p[0]]):
+                            out.append(raw[p[1], p[0]] * model[p])
+            return np.array(out, dtype=float)
+        dm2 = None if dmask is None else ~dmask
+        for k, dm in enumerate((None, dm2, dmask, None)):
+            vals = mask.get_values(data, mask=dm)
+            vv = vals.value if isinstance(vals, u.Quantity) else np.asarray(vals)
+            ctx.check(vv.ndim == 1 and same(vv, gv_model(dm), rt),
+                      f'get_values {tag} | a later call on the same mask object '
+                      'gives different values (call history)',
+                      lambda: f'call {k + 2} with mask='
+                              f'{"None" if dm is None else "array"}: got '
+                              f'{vv.tolist()} want {gv_model(dm).tolist()}')
+        for k in range(2):
+            mul2 = mask.multiply(data, fill_value=fill)
+            ctx.check((mul2 is None) == (mul is None) and (
+                mul is None or same(
+                    mul2.value if isinstance(mul2, u.Quantity) else mul2,
+                    mul.value if isinstance(mul, u.Quantity) else mul)),
+                f'multiply {tag} | repeating the call gives a different result')
         # ---- inputs untouched
         ctx.check((raw.tobytes(), raw.dtype.str, raw.shape) == before,
                   'input image modified')
